@@ -67,8 +67,9 @@ class Copies:
         a = fn_node.args
         for x in a.posonlyargs + a.args + a.kwonlyargs + [y for y in (a.vararg, a.kwarg) if y]:
             params.add(x.arg)
+        mutated = mutated_names(fn_node)
         for name, v in cand.items():
-            if counts.get(name) == 1 and name not in params:
+            if counts.get(name) == 1 and name not in params and name not in mutated:
                 self.defs[name] = v
 
     def expand(self, e: ast.AST, depth: int = 4) -> ast.AST:
@@ -89,6 +90,24 @@ class Copies:
 
     def xnorm(self, e: ast.AST) -> str:
         return norm(self.expand(e))
+
+
+_MUTATORS = {'append', 'extend', 'insert', 'pop', 'remove', 'clear', 'update', 'setdefault', 'popitem', 'sort', 'reverse',
+             'move_to_end', 'add', 'discard', 'difference_update', 'intersection_update', 'symmetric_difference_update',
+             'appendleft', 'popleft'}
+
+
+def mutated_names(fn_node: ast.AST) -> Set[str]:
+    """locals whose object is changed in place after binding (mutator call, item/attribute store, del, augmented item)"""
+    out: Set[str] = set()
+    for n in walk_function(fn_node):
+        if isinstance(n, ast.Call) and isinstance(n.func, ast.Attribute) and n.func.attr in _MUTATORS \
+                and isinstance(n.func.value, ast.Name):
+            out.add(n.func.value.id)
+        elif isinstance(n, (ast.Subscript, ast.Attribute)) and isinstance(n.ctx, (ast.Store, ast.Del)) \
+                and isinstance(n.value, ast.Name):
+            out.add(n.value.id)
+    return out
 
 
 def _in_loop(n: ast.AST, fn_node: ast.AST) -> bool:
@@ -388,8 +407,12 @@ class Alpha:
                 binds[v] = [b[0]]
         self.binds = binds
 
+        mutated = mutated_names(fn_node)
+
         def opaque(v):
             b = binds[v]
+            if v in mutated and b[0][0] == 'def':
+                return True
             if all(k == 'exc' for k, _, _ in b):
                 return False
             if len(b) > 1:
